@@ -61,6 +61,7 @@ ALPHABET = [
     ["mutate", [["x", ["sub", lit(10), Cn("x")]]]],  # overwrite (order-reversing, so that a mix-up of old and new x shows)
     ["mutate", [["c", lit(1)]]],  # constant column (must not be padded with the constant by an outer join)
     ["mutate", [["w", ["case", [[["gt", Cn("x"), ["mean", Cn("x")]], lit(2)]], lit(0)]]]],  # window function only in a when-condition
+    ["mutate", [["c", ["fill_null", Cn("x"), lit(0)]]]],  # not null for a row of nulls (also when hidden later, see the re-use probe)
     # the filter of the right operand of an inner join becomes part of the WHERE clause of the join
     ["join", {"src": "U", "hist": [["filter", [["gt", ["col", "src", "U", "x"], lit(2)]]]]}, "inner", [["eq", Cn("k"), ["col", "right", "k"]]]],
     # the right operand is itself a subquery
